@@ -102,7 +102,12 @@ def slotted(  # noqa: C901
                 field_names["__dict__"] = ...
             if weakref and not any(b.__weakrefoffset__ for b in cls.__bases__):
                 field_names["__weakref__"] = ...
-            cls_dict["__slots__"] = (*(f for f in field_names if f not in inherited_slots),)
+            # (A field inherited from a base without `__slots__` lives in the instance `__dict__`
+            #   that base brings along: only what this class declares gets a slot here.)
+            own = {*cls_dict.get("__annotations__", ()), "__dict__", "__weakref__"}
+            cls_dict["__slots__"] = (
+                *(f for f in field_names if f in own and f not in inherited_slots),
+            )
 
             # Erase filed names from class __dict__
             for f in field_names:
